@@ -674,7 +674,7 @@ class ArgumentParser(ParserDeprecations, ActionsContainer, ArgumentLinking, argp
             with parser_context(load_value_mode=self.parser_mode):
                 cfg = self._load_config_parser_mode(cfg_str, cfg_path, ext_vars, previous_config.get())
 
-            if defaults or env:
+            if defaults or env or (env is None and self._default_env):
                 cfg_base = self._parse_defaults_and_environ(defaults, env)
                 cfg = self.merge_config(cfg, cfg_base)
 
